@@ -20,39 +20,55 @@ from vlib.gridmodel import GridModel
 
 PID = 'C17'
 LEVEL = 'exploration'
-BUDGET_S = {'quick': 40, 'thorough': 540}
-FLOORS = {'quick': {'scenarios': 60, 'client_requests': 900, 'upstream_calls': 1500, 'judged_srs': 700, 'judged_format': 400,
-                    'judged_bbox': 500, 'judged_dims': 700, 'judged_tile_exists': 700, 'no_call_expected_checks': 700,
-                    'no_call_coverage': 350, 'no_call_res': 350, 'reprojection_forced_cases': 400,
-                    'equal_srs_other_code_cases': 80, 'dims_forwarded_cases': 250, 'dims_withheld_cases': 400,
-                    'bbox_on_coverage_edge': 350, 'combined_upstream_requests': 40, 'rendezvous_of_sibling_sources': 40},
-          'thorough': {'scenarios': 60}}
+BUDGET_S = {'quick': 36, 'thorough': 540}
+# quick: ~25% of seed 0 on a nearly idle machine (820 scenarios) = ~60% of the weakest of seeds 0-4 under moderate foreign
+# load; thorough: ~30% of seed 0 under moderate load (5525 scenarios). Throughput of this check follows the machine load.
+FLOORS = {'quick': {'scenarios': 200, 'client_requests': 3200, 'upstream_calls': 5200, 'judged_srs': 2500, 'judged_format': 1400,
+                    'judged_bbox': 1900, 'judged_dims': 2700, 'judged_tile_exists': 2000, 'no_call_expected_checks': 2300,
+                    'no_call_coverage': 1400, 'no_call_res': 1200, 'reprojection_forced_cases': 1350,
+                    'equal_srs_other_code_cases': 350, 'dims_forwarded_cases': 950, 'dims_withheld_cases': 1600,
+                    'bbox_on_coverage_edge': 1150, 'combined_upstream_requests': 70, 'rendezvous_of_sibling_sources': 200},
+          'thorough': {'scenarios': 1650, 'client_requests': 26000, 'upstream_calls': 39000, 'judged_srs': 21000,
+                       'judged_format': 12400, 'judged_bbox': 15700, 'judged_dims': 22600, 'judged_tile_exists': 16900,
+                       'no_call_expected_checks': 17800, 'no_call_coverage': 11200, 'no_call_res': 8900,
+                       'reprojection_forced_cases': 11400, 'equal_srs_other_code_cases': 3300, 'dims_forwarded_cases': 7500,
+                       'dims_withheld_cases': 12900, 'bbox_on_coverage_edge': 9800, 'combined_upstream_requests': 600,
+                       'rendezvous_of_sibling_sources': 2350}}
 RULE = ("case = one generated configuration (1-3 WMS sources: supported_srs 0-3 codes out of 7, supported_formats, "
         "coverage bbox|polygon in any of the SRS, min/max res or scale tied to the cache ladder with factors "
-        "1/1.001/1.3.., forward_req_params, version, method; optional tile source on its own grid with 6 URL template "
-        "kinds behind a cache whose grid is the same|other origin|sub ladder|sub bbox|bigger bbox|shifted|other ladder, "
-        "plus a cache-of-cache in another SRS; direct layer, cached layer) driven by 10-16 client requests (GetMap "
+        "1, 1.001, 1/1.001, 1.3 .., forward_req_params, version, method, optionally two sources behind one URL; optional "
+        "tile source on its own (possibly small) grid with 6 URL template kinds behind a cache whose grid is the "
+        "same|other origin|sub ladder|sub bbox|bigger bbox|shifted|other ladder, plus a cache-of-cache in another SRS; "
+        "direct layer, cached layer in yet another SRS, preferred_src_proj; every 6th case each is biased to equal-SRS "
+        "code pairs, shared URLs, near misses of projected coverages) driven by 10-16 client requests (GetMap "
         "1.1.1/1.3.0 in 7 SRS placed inside/partly/near outside/far outside the target source's coverage at resolutions "
         "inside/outside/at the limits, with TIME/ELEVATION/DIM_*/vendor parameters; GetFeatureInfo; TMS; WMTS KVP with "
-        "dimensions). evaluations = per-clause judgements of logged upstream URLs (srs, format, bbox, dims, "
-        "tile_exists) + no-call judgements per (query a source was asked to answer, source). distinct = (source kind, "
-        "clause, srs relation, coverage relation, res relation, cached|direct). non-trivial = the clause was "
-        "constrained by the configuration (list / coverage / range / grid present) for that judgement")
+        "dimensions). Sibling sources that MapProxy runs in parallel on one query object are made to rendezvous after "
+        "their SRS negotiation (forced, legal schedule). evaluations = per-clause judgements of logged upstream URLs "
+        "(srs, format, bbox, dims, tile_exists) + no-call judgements per (query a source was asked to answer, source). "
+        "distinct = (source kind, clause, srs relation, coverage relation, res relation, cached|direct, op). "
+        "non-trivial = the clause was constrained by the configuration (list / coverage / range / grid / client "
+        "dimensions present) for that judgement")
 ASSUMPTIONS = [
     "the upstream log (HTTPClient.open replaced) sees every request MapProxy sends upstream",
-    "the query a cached source is asked to answer is observed at source.get_map (instance attribute wrapper); for "
-    "direct layers and GetFeatureInfo it is the client's request",
+    "the query a cached source is asked to answer is observed at source.get_map (instance attribute wrapper, harness "
+    "side); for direct layers and GetFeatureInfo it is the client's request",
     "coverage extent = bounding box of the configured coverage; expressed in the request SRS as the envelope of its "
-    "densified outline (48 points per edge, pyproj); slack one upstream pixel + 1e-9 relative",
+    "densified outline (48 points per edge + interior lattice, pyproj); slack one upstream pixel + 1e-9 relative",
+    "an upstream BBOX with minx >= maxx or miny >= maxy (or a non-positive size) is not a bounding box inside anything: "
+    "flagged as bbox/invalid",
     "no-call (coverage): only queries whose densified footprint in the coverage SRS is more than 2 px away from the "
-    "coverage bbox are judged; nearer ones are don't-care",
+    "coverage bbox are judged; nearer ones, queries outside the world rectangle of their SRS and footprints without a "
+    "finite image are don't-care",
     "no-call (resolution): resolution = bbox extent / size in SRS units, degrees * 111319.49 m; limits +-1e-4 "
-    "(projected) / +-2e-3 (geographic, the constant is not documented) are don't-care; queries whose x and y "
-    "resolution fall on different sides are don't-care",
+    "(projected) / +-2e-3 (geographic: the constant is not in the documentation) are don't-care; queries whose x and "
+    "y resolution fall on different sides are don't-care",
     "EPSG:3857 and EPSG:900913 (and EPSG:4326 / CRS:84) are different codes: the request must carry a listed code",
-    "GetFeatureInfo requests are judged for the SRS code and the no-call clauses only (their BBOX is the map "
-    "context, MapProxy forwards it unclipped; format/bbox deviations are counted, not flagged)",
-    "parameters written into the source's req section by the operator count as configured",
+    "GetFeatureInfo requests are judged for the SRS code and the coverage no-call clause only (their BBOX is the map "
+    "context and is forwarded unclipped; info sources have no resolution gate): format outside supported_formats and "
+    "contacts outside the resolution range are counted (…(not_flagged) counters), not flagged",
+    "the rendezvous of sibling sources only selects one of the interleavings the real threads can produce; on "
+    "timeout (15 s) the threads proceed and the event is counted",
 ]
 
 DEG_M = 6378137.0 * 2 * math.pi / 360.0
@@ -320,9 +336,18 @@ def gen_spec(rng, flavour='free'):
             b[k] = a[k]
         if rng.random() < 0.5:
             b['fwd'] = a['fwd']
+        if rng.random() < 0.6:
+            b['res'] = a['res']     # (sources with different resolution ranges are not combined)
         if flavour == 'shared_url':
-            for sr in (a, b):
-                sr['res'] = gen_res_range(rng, ladder_m)
+            a['res'] = gen_res_range(rng, ladder_m)
+            b['res'] = gen_res_range(rng, ladder_m) if rng.random() < 0.5 else a['res']     # equal ranges stay combinable
+            if rng.random() < 0.35:
+                # the two layers of the server are configured with different codes of one SRS
+                swap = {'EPSG:3857': 'EPSG:900913', 'EPSG:900913': 'EPSG:3857', 'EPSG:4326': 'CRS:84', 'CRS:84': 'EPSG:4326'}
+                lst = [c for c in (a['supported_srs'] or []) if c in ('EPSG:25832', 'EPSG:31467', 'EPSG:3035')][:2]
+                a['supported_srs'] = [rng.choice(sorted(swap))] + lst
+                rng.shuffle(a['supported_srs'])
+                b['supported_srs'] = [swap.get(c, c) for c in a['supported_srs']]
     # (a layer mixing sources with and without supported_srs answers every GetMap with 500: SupportedSRS.__eq__ against a
     #  plain list raises AttributeError in WMSSource._is_compatible - outside C17, kept rare)
     if nw >= 2 and rng.random() < 0.85:
@@ -1081,7 +1106,7 @@ def request_url(req, tms_paths):
 # ---- case execution ----------------------------------------------------------------------------------------------
 
 def gen_cases(run):
-    for i in range(run.pick(900, 16000)):
+    for i in range(run.pick(2000, 30000)):
         yield {'i': i}
 
 
@@ -1134,8 +1159,15 @@ def _run(run, case, spec, reqs, d):
             wrap_source(obs, obj, sname, cname, len(snames), 'cached')
     if spec.get('concurrent_layer_renderer', 1) > 1 and len(spec['direct_sources']) > 1:
         # the direct sources of layer ld are rendered in parallel threads with one shared query
+        servers = []
         for svc in sc.services:
-            lyr = getattr(svc, 'layers', {}).get('ld') if hasattr(getattr(svc, 'layers', None), 'get') else None
+            servers.append(svc)
+            if isinstance(getattr(svc, 'services', None), dict):      # OWSServer wraps the WMS / WMTS KVP servers
+                servers.extend(svc.services.values())
+        for svc in servers:
+            if type(svc).__name__ != 'WMSServer':
+                continue
+            lyr = svc.layers.get('ld')
             objs = getattr(lyr, 'map_layers', None)
             if objs and len(objs) == len(spec['direct_sources']) and all(hasattr(o, 'supported_srs') for o in objs):
                 for obj, sname in zip(objs, spec['direct_sources']):
